@@ -125,6 +125,32 @@ const NASTY: &[&str] = &[
     "\n#[test(should_revert = 1)] fn sv_y() {}\n", "\n#[inline(always, never)] fn sv_z() {}\n", "\nfn sv_aa() { let x = 1u8 << 300; let y = 1 / 0; }\n",
 ];
 
+/// A second module with public items, and snippets for the main file that MISUSE them across the module boundary
+/// (non-existent / private fields in patterns and expressions, wrong arity, wrong generic count, missing trait method…).
+const XMOD: &str = "library;\npub struct SvPoint { pub x: u64, pub y: u64 }\npub struct SvPriv { pub a: u64, b: u64 }\npub struct SvGen<T> { pub t: T }\npub enum SvEn { A: u64, B: (u64, bool), C: () }\npub trait SvTr { fn m(self) -> u64; }\nimpl SvTr for SvPoint { fn m(self) -> u64 { self.x } }\npub fn sv_fn(a: u64, b: bool) -> u64 { if b { a } else { 0 } }\npub const SV_C: u64 = 7;\npub fn sv_mk() -> SvPriv { SvPriv { a: 1, b: 2 } }\n";
+const XUSE: &[&str] = &[
+    "fn sv_x1(p: SvPoint) -> u64 { match p { SvPoint { x, z } => x } }",
+    "fn sv_x2(p: SvPoint) -> u64 { let SvPoint { x, w } = p; x }",
+    "fn sv_x3(p: SvPriv) -> u64 { match p { SvPriv { a, b } => a } }",
+    "fn sv_x4(p: SvPriv) -> u64 { p.b }",
+    "fn sv_x5() -> SvPriv { SvPriv { a: 1, b: 2 } }",
+    "fn sv_x6(p: SvPoint) -> u64 { p.q }",
+    "fn sv_x7(e: SvEn) -> u64 { match e { SvEn::A(x, y) => x, SvEn::D => 0, _ => 1 } }",
+    "fn sv_x8(e: SvEn) -> u64 { match e { SvEn::B((a, b, c)) => a, _ => 0 } }",
+    "fn sv_x9() -> u64 { sv_fn(1) }",
+    "fn sv_x10() -> u64 { sv_fn(1, true, 2) }",
+    "fn sv_x11(g: SvGen) -> u64 { 0 }",
+    "fn sv_x12(g: SvGen<u64, bool>) -> u64 { g.t }",
+    "fn sv_x13(p: SvPoint) -> u64 { p.n() }",
+    "impl SvTr for SvPriv { }",
+    "impl SvTr for SvEn { fn m(self) -> u64 { 0 } fn k(self) -> u64 { 1 } }",
+    "fn sv_x14() -> u64 { SV_C(1) }",
+    "fn sv_x15(p: SvPoint) -> u64 { match p { SvPoint { x: SvPoint { x, y }, .. } => x } }",
+    "fn sv_x16(p: SvPoint) -> u64 { match p { SvGen { t } => t } }",
+    "fn sv_x17(e: SvEn) -> u64 { let SvEn::A(v) = e; v }",
+    "fn sv_x18(p: SvPriv) -> u64 { match p { SvPriv { a, .. } | SvPriv { b, .. } => 1 } }",
+];
+
 fn idents(src: &str) -> Vec<(usize, usize)> {
     let b = src.as_bytes();
     let mut v = vec![];
@@ -253,12 +279,27 @@ fn main() {
         if src.len() > 60_000 { continue; }
         let (mut kind, mut m) = mutate(&mut r, &src);
         if r.chance(1, 4) { let (k2, m2) = mutate(&mut r, &m); kind = format!("{kind}+{k2}"); m = m2; }
+        // cross-module misuse family: only for the entry file of the package
+        let relname = f.strip_prefix(orig.join("src")).unwrap().display().to_string();
+        let mut xmod = false;
+        if (relname == "main.sw" || relname == "lib.sw") && r.chance(1, 6) {
+            if let Some(pos) = ["script;", "library;", "contract;", "predicate;"].iter().filter_map(|k| src.find(k).map(|i| i + k.len())).min() {
+                let mut t = String::new();
+                t.push_str(&src[..pos]);
+                t.push_str("\nmod svxmod;\nuse svxmod::*;\n");
+                t.push_str(&src[pos..]);
+                let nsn = 1 + r.below(3);
+                for _ in 0..nsn { t.push('\n'); t.push_str(*r.pick(XUSE)); t.push('\n'); }
+                m = t; kind = "xmod_misuse".into(); xmod = true;
+            }
+        }
         if m == src { continue; }
         let id = ms.len();
         let dir = scratch.join(format!("m{id}"));
         if stage(&orig, &dir).is_none() { continue; }
         let rel = f.strip_prefix(orig.join("src")).unwrap().to_path_buf();
         std::fs::write(dir.join("src").join(&rel), &m).unwrap();
+        if xmod { std::fs::write(dir.join("src").join("svxmod.sw"), XMOD).unwrap(); }
         use sha2::Digest;
         let fp = hex::encode(sha2::Sha256::digest(m.as_bytes()))[..12].to_string();
         ms.push(M { id, pkg: orig.strip_prefix("/repo").unwrap_or(&orig).display().to_string(), file: rel.display().to_string(), kind, fp, dir, src: m });
